@@ -41,8 +41,25 @@ def pmap_configs(tier: str) -> list[dict]:
     return c
 
 
+def hold_configs(tier: str) -> list[dict]:
+    """Base schedule "slow partners": every release of an item is held back
+    for 150 ms, so any wait with a shorter time-out inside parallel_map
+    expires before the item arrives (time-outs are environment answers)."""
+    if tier == "thorough":
+        return [dict(n=8, T=3, hold=150, bound=2),
+                dict(n=6, T=2, hold=150, bound=2),
+                dict(n=9, T=4, hold=150, bound=1),
+                dict(n=7, T=3, d=3, hold=150, bound=1),
+                dict(n=5, T=5, hold=150, bound=1)]
+    return [dict(n=8, T=3, hold=150, bound=1),
+            dict(n=6, T=2, hold=150, bound=1),
+            dict(n=7, T=4, hold=150, bound=0),
+            dict(n=6, T=3, d=3, hold=150, bound=0)]
+
+
 def weight(cfg):
-    return (cfg["n"] + 1)**min(cfg["T"], cfg["n"] + 1)
+    return (cfg["n"] + 1)**min(cfg["T"], cfg["n"] + 1) * (
+        1000 if cfg.get("hold") else 1)
 
 
 # ---------------------------------------------------------------------------
@@ -213,7 +230,8 @@ def run(ctx):
     from vf import rustbuild
     rustbuild.ensure_ext()
     rustbuild.ensure_pmap()
-    cfgs = sorted(pmap_configs(ctx.tier), key=weight, reverse=True)
+    cfgs = sorted(pmap_configs(ctx.tier) + hold_configs(ctx.tier),
+                  key=weight, reverse=True)
     # the gate harness judges quiescence from /proc: keep the machine calm
     with cf.ThreadPoolExecutor(max_workers=6) as tp:
         results = list(tp.map(pmap_mc.explore_config, cfgs))
@@ -232,7 +250,8 @@ def run(ctx):
         if r["capped"]:
             ctx.harness_error(f"cap hit in {cfg}")
         name = f"parallel_map n={cfg['n']} T={cfg['T']}" + (
-            f" drop={cfg['d']}" if "d" in cfg else "")
+            f" drop={cfg['d']}" if "d" in cfg else "") + (
+                f" hold={cfg['hold']}ms" if cfg.get("hold") else "")
         ctx.part(name, executions=r["executions"],
                  transitions=r["transitions"],
                  complete=cfg.get("bound") is None,
@@ -286,7 +305,9 @@ def run(ctx):
         "controller releases one blocked item at a time whenever the "
         "process is quiescent), for all n<=5..7, T<=4..5, and every early "
         "drop position; oracle: outputs in input order, bounded pulls, "
-        "drop returns and all threads are gone, no deadlock.  End to end: "
+        "drop returns and all threads are gone, no deadlock; a few "
+        "configurations again with every release held back 150 ms (waits "
+        "with a time-out expire first).  End to end: "
         "the rebuilt extension against the pure-Python reader for every "
         "supported compression, thread counts below/at/above the number "
         "of shards, two attribute layouts, shuffle 0 (same sequence) and "
